@@ -305,7 +305,8 @@ func (msg *message) search(seqNum uint32, criteria *imap.SearchCriteria) bool {
 
 	if !criteria.SentSince.IsZero() || !criteria.SentBefore.IsZero() {
 		t, err := header.Date()
-		if err != nil {
+		if err != nil || t.IsZero() {
+			// no (usable) Date header field: nothing to compare with
 			return false
 		} else if !matchDate(t, criteria.SentSince, criteria.SentBefore) {
 			return false
